@@ -360,6 +360,9 @@ func genRaw(r *hx.Rand) Ext {
 		e.Type = 13172 // NPN, empty
 	case 6:
 		e.Type, e.Body = 0xff01, hx.B{0}
+		if r.Chance(1, 4) { // not an initial handshake: refused later, fingerprinted all the same
+			e.Body = hx.B{2, 7, 7}
+		}
 	case 7:
 		e.Type = 23 // extended_master_secret
 	case 8:
@@ -389,7 +392,7 @@ func genRaw(r *hx.Rand) Ext {
 }
 
 func genHello(r *hx.Rand, names []string) *Hello {
-	h := &Hello{Vers: r.PickInt([]int{0x0303, 0x0303, 0x0303, 0x0303, 0x0302, 0x0301, 0x0301, 0x0300, 0x0304})}
+	h := &Hello{Vers: r.PickInt([]int{0x0303, 0x0303, 0x0303, 0x0303, 0x0302, 0x0301, 0x0301, 0x0300, 0x0300, 0x0304, 0x0200})}
 	// GREASE is decided per hello and per list, so that about half of the hellos have none in
 	// ciphers/curves and the lists are exercised independently
 	gC, gE, gG := r.Chance(1, 2), r.Chance(1, 2), r.Chance(1, 2)
@@ -411,7 +414,8 @@ func genHello(r *hx.Rand, names []string) *Hello {
 			h.Ciphers = append(h.Ciphers, r.PickInt(suitePool))
 		}
 	}
-	h.Comp = hx.B([][]byte{{0}, {0}, {0}, {1, 0}, {0, 1, 64}}[r.Intn(5)])
+	// the fingerprint is taken before negotiation: offers without null compression are in scope too
+	h.Comp = hx.B([][]byte{{0}, {0}, {0}, {0}, {1, 0}, {0, 1, 64}, {1}, {}}[r.Intn(8)])
 	if r.Chance(1, 12) {
 		h.NoExts = true
 		return h
@@ -771,7 +775,7 @@ func corpus() []Input {
 	}
 	mk := func(h *Hello) Input { return Input{Hello: h, Recs: []Rec{{22, 0x0301, hx.B(encodeHello(h))}}} }
 	return []Input{
-		// the witness read off the code: GREASE in ciphers, extensions and curves
+		// the hello of the former GREASE defect (fixed in fea246c): GREASE in ciphers, extensions and curves
 		mk(&Hello{Vers: 771, Random: rnd, Ciphers: []int{0x0a0a, 49195}, Comp: hx.B{0}, Exts: []Ext{
 			{Kind: "raw", Type: 0x1a1a}, {Kind: "sni", Names: []SNIName{{0, hx.B("example.com")}}},
 			{Kind: "groups", Groups: []int{0x2a2a, 29}}, {Kind: "points", Points: hx.B{0}}}}),
@@ -783,7 +787,7 @@ func corpus() []Input {
 		mk(&Hello{Vers: 771, Random: rnd, Ciphers: []int{49195}, Comp: hx.B{0}, Exts: []Ext{
 			{Kind: "sni", Names: []SNIName{{0, hx.B("example.com")}}},
 			{Kind: "groups", Groups: []int{29}}, {Kind: "points", Points: hx.B{0}}}}),
-		// an SSL 3.0 hello
+		// the hello of the former unrecorded-version defect (fixed in a08b807): SSL 3.0
 		mk(&Hello{Vers: 768, Random: rnd, Ciphers: []int{10, 5}, Comp: hx.B{0}, NoExts: true}),
 	}
 }
